@@ -486,6 +486,34 @@ def m_permits_restored(run):
     return f
 
 
+# ---------------------------------------------------------------- C17 (system level)
+def m_first_failure_kept(run):
+    """The first failure or cancellation recorded for a transfer is the one kept: after
+    it, the stored exception changes only through set_result (success of the final
+    step) or through the USER's set_exception on the finished future."""
+    f = []
+    first = {}          # t -> id of the first stored exception
+    for r in run.trace:
+        t = r.get('t')
+        if r['ev'] == 'set_result':
+            first.pop(t, None)
+        elif r['ev'] in ('set_exception', 'cancel_applied'):
+            stored = r.get('stored')
+            sid = stored if isinstance(stored, int) else (stored or {}).get('id') if stored is not None else None
+            if sid is None:
+                continue
+            if t not in first:
+                first[t] = sid
+            elif sid != first[t]:
+                by_user = r['ev'] == 'set_exception' and r.get('override') and r.get('via_future')
+                if not by_user:
+                    what = r.get('exc') or stored
+                    f.append(f't{t}: the stored exception was replaced by {what} (recorded by thread {r["thread"]}, '
+                             f'{r["ev"]}, override={r.get("override")}) although an earlier failure was already recorded')
+                first[t] = sid
+    return f
+
+
 # ---------------------------------------------------------------- C18
 def m_barrier(run):
     f = []
